@@ -6,6 +6,8 @@
 // scripted hop reads is compared with the model and with the property's clauses. PAC configurations whose
 // upstream proxies share a host name (and differ in port), share a port, or are spellings of one address are
 // served request sequences that visit the proxies in every order; the sequence model (pacCredSeq) is compared.
+// conc.go: one instance serving many clients at the same time, every head attributed to its request and judged by the same
+// per-request comparison; hist.go: several proxies constructed in one process from reused configurations.
 package c06
 
 import (
@@ -532,20 +534,19 @@ func clientValues(q *creq, name string) []string {
 }
 
 func evaluate(ctx *core.Ctx, fc *reqmodel.FullCfg, cc *ccase, one any, q *creq, ob *observed, visited map[string]bool) {
-	mctx := reqmodel.Ctx{ClientIP: "127.0.0.1", Secure: q.Kind == "inner"}
-	var out reqmodel.Outcome
-	scheme := "http"
-	switch q.Kind {
-	case "connect":
-		scheme = ""
-		out = reqmodel.AskFullConnect(ctx.Model, fc, &mctx, &reqmodel.ConnectReq{Authority: q.Authority, Minor: 1, Fields: q.allFields()})
-	default:
-		if q.Kind == "inner" {
-			scheme = "https"
-		}
-		out = reqmodel.AskFullRequest(ctx.Model, fc, &mctx, &reqmodel.Request{Method: q.Method, Minor: 1, Absolute: q.Absolute, Scheme: scheme, Authority: q.Authority,
-			Path: "/c", Fields: q.allFields()})
-	}
+	judge(ctx, fc, cc, one, q, ob, visited, true)
+}
+
+// judge compares what the hops read on behalf of ONE request with the model's answer for that request and evaluates the
+// property's clauses on it; tally = count the request as a case of its own (the concurrency family sends one generated
+// request many times and counts it once).
+func judge(ctx *core.Ctx, fc *reqmodel.FullCfg, cc *ccase, one any, q *creq, ob *observed, visited map[string]bool, tally bool) {
+	out, scheme := askModel(ctx, fc, q)
+	judgeWith(ctx, fc, cc, one, q, ob, visited, tally, out, scheme)
+}
+
+// judgeWith is judge given the model's answer (out, scheme = askModel) for the request.
+func judgeWith(ctx *core.Ctx, fc *reqmodel.FullCfg, cc *ccase, one any, q *creq, ob *observed, visited map[string]bool, tally bool, out reqmodel.Outcome, scheme string) {
 	host, port, hpOK := targetHostPort(scheme, q.Authority)
 	site := (*reqmodel.Cred)(nil)
 	if hpOK {
@@ -567,59 +568,61 @@ func evaluate(ctx *core.Ctx, fc *reqmodel.FullCfg, cc *ccase, one any, q *creq, 
 	}
 	cliAuthSupplied := len(cliAuth) > 0 && cliAuth[0] != "" && !authNominated
 
-	ctx.Case(fmt.Sprintf("%+v|%+v|%v|%v|%v|%+v", cc.Route, cc.Creds, cc.Gate, cc.MITM, cc.CRules, *q),
-		len(fc.Creds) > 0 || len(cliPA) > 0 || upCred != nil)
-	ctx.Count("kind/" + q.Kind)
-	ctx.Count("base/" + fc.Route.Base)
-	ctx.Count("model/" + out.Kind)
-	for _, l := range strings.Split(q.Label, ",") {
-		if l != "" {
-			ctx.Count("gen/" + l)
-		}
-	}
-	// the Connection-field dimension: shape of the client's Connection field x fixed hop-by-hop field present, and,
-	// for the credential field, x proxy basic auth on/off
-	shape := reqmodel.ConnShapeOf(q.Fields)
-	for _, l := range reqmodel.ConnShapeLabels(q.Fields) {
-		ctx.Count(l)
-	}
-	if len(cliPA) > 0 {
-		ctx.Count(fmt.Sprintf("connx-gate/%s/Proxy-Authorization/gate-%v/%s", shape, cc.Gate, q.Kind))
-	}
-	if site != nil {
-		ctx.Count("site-credential-matches")
-	}
-	if upCred != nil {
-		ctx.Count("upstream-credential")
-	}
-	if len(family) > 1 && upHost != "" {
-		// the history-sensitive situations: this request's proxy shares its host name (port / spelt-out address) with a
-		// DIFFERENT proxy address an earlier request of the same instance went to, and the table tells the two apart
-		uh, up, _ := net.SplitHostPort(upHost)
-		for v := range visited {
-			if v == upHost {
-				continue
-			}
-			vh, vp, _ := net.SplitHostPort(v)
-			apart := "same-credentials"
-			if !sameCred(upCred, familyCred(family, v)) {
-				apart = "told-apart"
-			}
-			switch {
-			case vh == uh:
-				ctx.Count("seq/after-sibling-same-host-other-port/" + apart)
-			case vp == up:
-				ctx.Count("seq/after-sibling-same-port-other-host/" + apart)
-			}
-			if strings.EqualFold(strings.TrimSuffix(vh, "."), strings.TrimSuffix(uh, ".")) && vh != uh && vp == up {
-				ctx.Count("seq/after-other-spelling-of-same-address/" + apart)
-			}
-			if proxyAt[v] != "" && proxyAt[v] == proxyAt[upHost] {
-				ctx.Count("seq/after-other-name-of-same-listener/" + apart)
+	if tally {
+		ctx.Case(fmt.Sprintf("%+v|%+v|%v|%v|%v|%+v", cc.Route, cc.Creds, cc.Gate, cc.MITM, cc.CRules, *q),
+			len(fc.Creds) > 0 || len(cliPA) > 0 || upCred != nil)
+		ctx.Count("kind/" + q.Kind)
+		ctx.Count("base/" + fc.Route.Base)
+		ctx.Count("model/" + out.Kind)
+		for _, l := range strings.Split(q.Label, ",") {
+			if l != "" {
+				ctx.Count("gen/" + l)
 			}
 		}
-		if visited[upHost] {
-			ctx.Count("seq/proxy-revisited")
+		// the Connection-field dimension: shape of the client's Connection field x fixed hop-by-hop field present, and,
+		// for the credential field, x proxy basic auth on/off
+		shape := reqmodel.ConnShapeOf(q.Fields)
+		for _, l := range reqmodel.ConnShapeLabels(q.Fields) {
+			ctx.Count(l)
+		}
+		if len(cliPA) > 0 {
+			ctx.Count(fmt.Sprintf("connx-gate/%s/Proxy-Authorization/gate-%v/%s", shape, cc.Gate, q.Kind))
+		}
+		if site != nil {
+			ctx.Count("site-credential-matches")
+		}
+		if upCred != nil {
+			ctx.Count("upstream-credential")
+		}
+		if len(family) > 1 && upHost != "" {
+			// the history-sensitive situations: this request's proxy shares its host name (port / spelt-out address) with a
+			// DIFFERENT proxy address an earlier request of the same instance went to, and the table tells the two apart
+			uh, up, _ := net.SplitHostPort(upHost)
+			for v := range visited {
+				if v == upHost {
+					continue
+				}
+				vh, vp, _ := net.SplitHostPort(v)
+				apart := "same-credentials"
+				if !sameCred(upCred, familyCred(family, v)) {
+					apart = "told-apart"
+				}
+				switch {
+				case vh == uh:
+					ctx.Count("seq/after-sibling-same-host-other-port/" + apart)
+				case vp == up:
+					ctx.Count("seq/after-sibling-same-port-other-host/" + apart)
+				}
+				if strings.EqualFold(strings.TrimSuffix(vh, "."), strings.TrimSuffix(uh, ".")) && vh != uh && vp == up {
+					ctx.Count("seq/after-other-spelling-of-same-address/" + apart)
+				}
+				if proxyAt[v] != "" && proxyAt[v] == proxyAt[upHost] {
+					ctx.Count("seq/after-other-name-of-same-listener/" + apart)
+				}
+			}
+			if visited[upHost] {
+				ctx.Count("seq/proxy-revisited")
+			}
 		}
 	}
 	impl := ob.String()
@@ -634,34 +637,7 @@ func evaluate(ctx *core.Ctx, fc *reqmodel.FullCfg, cc *ccase, one any, q *creq, 
 		okAll = false
 		ctx.Disagree(rel, one, impl, want)
 	}
-	type want struct {
-		peer string
-		s    reqmodel.Sent
-	}
-	var wants []want
-	var wantSocks []reqmodel.Action
-	originPeer := "origin"
-	if scheme == "https" || q.Kind == "connect" {
-		originPeer = "tlsOrigin"
-	}
-	for _, a := range out.Actions {
-		proxyPeer := proxyPeerFor(a.Via, a.HopAddr) // "": a proxy address none of the listeners stands for
-		if a.Via == "socks5" {
-			wantSocks = append(wantSocks, a)
-		}
-		for _, s := range a.Sent {
-			switch s.Recv {
-			case "proxy":
-				if proxyPeer != "" {
-					wants = append(wants, want{proxyPeer, s})
-				}
-			case "origin":
-				if (a.Via == "direct" || proxyPeer != "" || a.Via == "socks5" && socksAt[a.HopAddr]) && routed(scheme, q.Authority) {
-					wants = append(wants, want{originPeer, s})
-				}
-			}
-		}
-	}
+	wants, wantSocks := modelWants(&out, q, scheme)
 	switch out.Kind {
 	case "refused":
 		if ob.Status != out.Status || len(ob.Heads) != 0 {
@@ -838,6 +814,57 @@ func evaluate(ctx *core.Ctx, fc *reqmodel.FullCfg, cc *ccase, one any, q *creq, 
 	}
 }
 
+// want: a message head the model says a scripted hop reads on behalf of a request.
+type want struct {
+	peer string
+	s    reqmodel.Sent
+}
+
+// modelWants: the heads (per scripted hop) and the SOCKS5 requests the model's answer for a request asks for.
+func modelWants(out *reqmodel.Outcome, q *creq, scheme string) (wants []want, wantSocks []reqmodel.Action) {
+	originPeer := "origin"
+	if scheme == "https" || q.Kind == "connect" {
+		originPeer = "tlsOrigin"
+	}
+	for _, a := range out.Actions {
+		proxyPeer := proxyPeerFor(a.Via, a.HopAddr) // "": a proxy address none of the listeners stands for
+		if a.Via == "socks5" {
+			wantSocks = append(wantSocks, a)
+		}
+		for _, s := range a.Sent {
+			switch s.Recv {
+			case "proxy":
+				if proxyPeer != "" {
+					wants = append(wants, want{proxyPeer, s})
+				}
+			case "origin":
+				if (a.Via == "direct" || proxyPeer != "" || a.Via == "socks5" && socksAt[a.HopAddr]) && routed(scheme, q.Authority) {
+					wants = append(wants, want{originPeer, s})
+				}
+			}
+		}
+	}
+	return wants, wantSocks
+}
+
+// askModel: the model's answer for one request under a configuration.
+func askModel(ctx *core.Ctx, fc *reqmodel.FullCfg, q *creq) (out reqmodel.Outcome, scheme string) {
+	mctx := reqmodel.Ctx{ClientIP: "127.0.0.1", Secure: q.Kind == "inner"}
+	scheme = "http"
+	switch q.Kind {
+	case "connect":
+		scheme = ""
+		out = reqmodel.AskFullConnect(ctx.Model, fc, &mctx, &reqmodel.ConnectReq{Authority: q.Authority, Minor: 1, Fields: q.allFields()})
+	default:
+		if q.Kind == "inner" {
+			scheme = "https"
+		}
+		out = reqmodel.AskFullRequest(ctx.Model, fc, &mctx, &reqmodel.Request{Method: q.Method, Minor: 1, Absolute: q.Absolute, Scheme: scheme, Authority: q.Authority,
+			Path: "/c", Fields: q.allFields()})
+	}
+	return out, scheme
+}
+
 // requestHost: the host name the proxy function (the PAC script) is asked about for this request.
 func requestHost(q *creq) string {
 	scheme := "http"
@@ -1003,14 +1030,25 @@ func Run(ctx *core.Ctx) {
 		"in host, or are spellings of one address), a credentials table with exact / host:* / *:port / *:* entries for some of them and none for the rest, and " +
 		"a request sequence on one instance that visits them in every order: every Proxy-Authorization value (SOCKS5 credential) must be seen only by the proxy " +
 		"whose host:port the table assigns it to, and the sequence model pacCredSeq is compared per case; " +
-		"plus the exported CredentialsMatcher API against the model on generated tables and lookups; " +
+		"plus the exported CredentialsMatcher API against the model on generated tables and lookups, and with 4-32 goroutines looking a few host:ports with " +
+		"differing answers up on one matcher at the same time (every answer = the model's for that lookup alone); " +
+		"the CONCURRENCY family: one instance (PAC family whose targets select different upstream proxies with credentials of their own or none / static / " +
+		"no upstream; a table with an entry for some target host:ports and none for the rest), 16-64 clients in flight at once over several rounds, " +
+		"every head every hop reads attributed to its request (Case-Id; the transport's own CONNECT heads and SOCKS5 requests by hop and target) and " +
+		"judged by the per-request model and clauses — the busy form sends 32 000 plain requests per instance over reused connections; " +
+		"the CONSTRUCTION-HISTORY family: 2-4 proxies built in one process from a reused *HTTPProxyConfig / *url.URL / value copy / value copy " +
+		"re-pointed at another upstream proxy / the same CredentialsMatcher, each with a table of its own, alive side by side, each judged by the model " +
+		"for its own configuration as written, and the caller's UpstreamProxy URL (user information included) must read as written after every " +
+		"NewHTTPProxy and after traffic; " +
 		"non-trivial = a credential table, a client Proxy-Authorization or an upstream credential is involved; distinct = distinct (configuration, request)")
 	for _, c := range core.LoadCorpus(ctx.Root, "C06") {
 		Replay(ctx, c)
 	}
 	matcherAPI(ctx)
-	nCases := ctx.N(900, 7000)
-	jobs := make(chan *ccase, 32)
+	matcherConcAPI(ctx)
+	histRng := ctx.Rng.Sub()
+	nCases, nHist := ctx.N(900, 7000), ctx.N(60, 400)
+	jobs := make(chan any, 32)
 	var wg sync.WaitGroup
 	for w := 0; w < 10; w++ {
 		wg.Add(1)
@@ -1021,21 +1059,37 @@ func Run(ctx *core.Ctx) {
 				core.Fatalf("cannot start scripted hops: %v", err)
 			}
 			defer h.close()
-			for cc := range jobs {
-				runCase(ctx, h, cc)
+			for j := range jobs {
+				switch c := j.(type) {
+				case *ccase:
+					runCase(ctx, h, c)
+				case *histCase:
+					runHistory(ctx, h, c)
+				}
 			}
 		}(w)
 	}
-	for i := 0; i < nCases; i++ {
+	every := nCases / nHist
+	for i, k := 0, 0; i < nCases; i++ {
 		r := ctx.Rng.Sub()
 		cc := genCase(r)
 		if i < 3 {
 			ctx.Sample(cc)
 		}
 		jobs <- cc
+		if i%every == 0 && k < nHist {
+			// the construction histories, among the other cases
+			hc := genHistory(histRng.Sub())
+			if k == 0 {
+				ctx.Sample(hc)
+			}
+			k++
+			jobs <- hc
+		}
 	}
 	close(jobs)
 	wg.Wait()
+	concFamily(ctx)
 }
 
 func Replay(ctx *core.Ctx, raw json.RawMessage) {
@@ -1053,6 +1107,36 @@ func Replay(ctx *core.Ctx, raw json.RawMessage) {
 		cc = ccase{Kind: "creds", Route: o.Route, Creds: o.Creds, Gate: o.Gate, MITM: o.MITM, CRules: o.CRules, Requests: []creq{o.Request}}
 	case "matcher":
 		replayMatcher(ctx, raw)
+		return
+	case "matcher-conc":
+		var mc concMatcherCase
+		if err := json.Unmarshal(raw, &mc); err != nil {
+			core.Fatalf("bad C06 case: %v", err)
+		}
+		mc.Failing = nil
+		runMatcherConc(ctx, &mc)
+		return
+	case "conc", "history":
+		h, err := newHops(ctx, 98)
+		if err != nil {
+			core.Fatalf("cannot start scripted hops: %v", err)
+		}
+		defer h.close()
+		if k.Kind == "conc" {
+			var c concCase
+			if err := json.Unmarshal(raw, &c); err != nil {
+				core.Fatalf("bad C06 case: %v", err)
+			}
+			c.Failing, c.Note = nil, ""
+			runConc(ctx, h, &c)
+		} else {
+			var c histCase
+			if err := json.Unmarshal(raw, &c); err != nil {
+				core.Fatalf("bad C06 case: %v", err)
+			}
+			c.Failing, c.Proxy = nil, nil
+			runHistory(ctx, h, &c)
+		}
 		return
 	default:
 		if err := json.Unmarshal(raw, &cc); err != nil {
